@@ -1,5 +1,6 @@
 """C07: interrupting or killing ninja never poisons the next build."""
 import nxprops
+import rbchecks
 import templates_c07
 
 
@@ -11,6 +12,12 @@ RULE = ("engine A: for the crash templates every ninja invocation is run under e
         "and after exit 0 the clean-build and convergence oracles must hold; interrupted builds must exit 130, remove the "
         "lock file, modified outputs of killed commands (always for depfile statements) and their depfiles")
 
+RB_RULE = ("; engine B: the unmodified ninja executable with gated helper commands run through /bin/sh as compound commands: "
+           "SIGINT, SIGTERM, SIGHUP and SIGKILL are delivered at each of the first three waits of a fresh and of an "
+           "incremental build, with the oldest running command either untouched or having already overwritten its outputs: "
+           "exit 130, lock file gone, no command process survives, overwritten outputs removed; the next build succeeds, "
+           "equals a clean build and converges")
+
 
 def fams(tier):
     T = templates_c07.templates(tier)
@@ -18,7 +25,8 @@ def fams(tier):
 
 
 def main(argv):
-    nxprops.run_check("C07", argv, ["C07"], RULE, level="fault_enumeration", fam_fn=fams,
+    nxprops.run_check("C07", argv, ["C07"], RULE + RB_RULE, level="fault_enumeration", fam_fn=fams,
+                      process_level=rbchecks.c07_process_level,
                       extra_assumptions=["process death is modelled at the granularity of libc calls that change the file "
                                          "system; a SIGKILLed tree leaves each running command either complete or without effect",
-                                         "real signal delivery and process groups are not part of this engine"])
+                                         "real signals are delivered at gate points (when ninja is blocked waiting), not at arbitrary instants"])
